@@ -575,6 +575,19 @@ func (rn *runner) reportRead(tl *txLog, i int, d string, own map[string]ownEntry
 			sig = "rw-committed/stale-read/reader-row-answered-by-own-write"
 		}
 	}
+	if ol.Op.K == "scan" && class != "own-write-not-seen" {
+		// rows read after a Set made while this reader was open (same index): the Set rewrites the leaf
+		// the reader stands on (known defect, one signature whatever the symptom)
+		var ri int
+		if at := strings.Index(d, "row "); at < 0 {
+		} else if _, err := fmt.Sscanf(d[at:], "row %d", &ri); err == nil {
+			for j := 0; j < ri && j < len(ol.Rows); j++ {
+				if r := ol.Rows[j]; r.Step == "wset" && r.Err == "" && rn.ks.indexOf(r.Key) == rn.opIndex(ol) {
+					sig = "reader-open-during-set/rows-after-the-set-differ"
+				}
+			}
+		}
+	}
 	_ = kind
 	fail(sig, fmt.Sprintf("tx %d (%s, snapshot option %s/%s) committed although operation %d differs from the state produced by txs 1..%d%s: %s",
 		tl.ID, tl.Prog.Name, tl.Prog.Must, tl.Prog.Renew, i, tl.ID-1, at, d))
